@@ -822,7 +822,8 @@ impl BackingStore {
         });
         if length == 0 {
             // This will cause `mmap` to fail, so handle it explicitly.
-            return (ptr::null_mut(), length);
+            // (A dangling but non-null, aligned pointer: what slices of length 0 require.)
+            return (ptr::NonNull::dangling().as_ptr(), length);
         }
         let address = libc::mmap(
             ptr::null_mut(),
@@ -859,7 +860,8 @@ unsafe impl Sync for OsIpcSharedMemory {}
 impl Drop for OsIpcSharedMemory {
     fn drop(&mut self) {
         unsafe {
-            if !self.ptr.is_null() {
+            // (nothing is mapped for a zero-length region)
+            if self.length != 0 {
                 let result = libc::munmap(self.ptr as *mut c_void, self.length);
                 assert!(thread::panicking() || result == 0);
             }
